@@ -75,6 +75,9 @@ CONFIGS = {
                     ops=_text_ops(40) + [b'COLOR 7,1', b'COLOR 0,7', b'WIDTH 40', b'WIDTH 80'] + PAGE_OPS),
     'vga-t80': dict(kw={'video': 'vga'}, setup=[b'WIDTH 80'], fonts=True,
                     ops=_text_ops(80) + [b'COLOR 7,1', b'COLOR 14,0', b'WIDTH 40'] + PAGE_OPS),
+    # monochrome text adapter: attributes 1 and 9 are underlined (a scan line of the cell in the foreground colour)
+    'mda-t80': dict(kw={'video': 'mda'}, setup=[b'WIDTH 80'],
+                    ops=_text_ops(80) + [b'COLOR 1,0', b'COLOR 9,0', b'COLOR 7,0', b'COLOR 0,7']),
     'cga-s1': dict(kw={'video': 'cga'}, setup=[b'SCREEN 1', b'DIM A%(60)'],
                    ops=_text_ops(40) + [b'COLOR 1,0', b'COLOR 0,1', b'WIDTH 80'] + GFX_OPS),
     'cga-s2': dict(kw={'video': 'cga'}, setup=[b'SCREEN 2', b'DIM A%(60)'],
@@ -412,7 +415,7 @@ def legs(ctx):
                bound='%d configurations: attach, setup statements, rebuild' % len(CONFIGS))]
     if ctx.quick:
         plan = [(cid, 'all', 2, None) for cid in CONFIGS] + [
-            (cid, 'core', 3, None) for cid in ('cga-t80', 'cga-s1', 'ega-s9')] + [
+            (cid, 'core', 3, None) for cid in ('cga-t80', 'cga-s1', 'ega-s9', 'mda-t80')] + [
             (cid, 'pages', 4, None) for cid in ('cga-t80', 'ega-s9')]
     else:
         plan = [(cid, 'all', 4 if cid == 'cga-t80' else 3, None) for cid in CONFIGS] + [
